@@ -74,7 +74,7 @@ def judge(ctx, r):
 def run(ctx):
     import sessions.c03 as c03
     import itertools
-    runs = itertools.chain(C.explore(ctx, ctx.n(400, 6000), 12, c03.STYLES, p_invalid=0.15, observe=observe, getall=True),
+    runs = itertools.chain(C.explore(ctx, ctx.n(400, 6000), 12, c03.STYLES_WF, p_invalid=0.15, observe=observe, getall=True),
                            C.explore_equal_sizes(ctx, depth=3, tables=(3,), observe=observe, getall=True),
                            C.explore_boundary_sizes(ctx, observe=observe, getall=True),
                            C.explore_equal_sizes_big(ctx, observe=observe, getall=True))
